@@ -41,6 +41,23 @@ def quat_close(a, b):
     return min(np.max(np.abs(a - n)), np.max(np.abs(a + n))) <= 4 * np.finfo(float).eps
 
 
+def abs_chi2(g):
+    """Yardstick for comparing chi^2 before / after a round trip: sum of the absolute terms |e_i| |Omega_ij| |e_j|, plus the effect on chi^2 of
+    an error change d = 64 eps * (largest coordinate the edge touches) -- the reader may re-normalise a measurement quaternion / re-wrap an angle
+    in the last bits, and a rotation acts on translations of any magnitude."""
+    tot, slack = 0.0, 0.0
+    with np.errstate(all='ignore'):
+        for e in g._edges:
+            err = np.abs(np.asarray(e.calc_error(), dtype=float))
+            W = np.abs(np.asarray(e.information, dtype=float))
+            tot += float(err @ W @ err)
+            big = max([float(np.max(np.abs(np.asarray(v.pose, dtype=float)))) for v in e.vertices] + [float(np.max(np.abs(np.asarray(e.estimate, dtype=float))))]
+                      + ([float(np.max(np.abs(np.asarray(e.offset, dtype=float))))] if getattr(e, 'offset', None) is not None else []))
+            d = 64 * np.finfo(float).eps * big
+            slack += float(2.0 * np.sum(err @ W) * d + np.sum(W) * d * d)
+    return tot, slack
+
+
 def compare_graphs(run, g1, g2, parsed, key, what):
     """g2 (re-imported) against g1 (exported), position by position, with the tolerance class the specification assigns to each position."""
     if [v.id for v in g1._vertices] != [v.id for v in g2._vertices] or [type(v.pose) for v in g1._vertices] != [type(v.pose) for v in g2._vertices]:
@@ -337,7 +354,20 @@ def check(run):
                     break
                 if chi0 is not None and np.isfinite(chi0):
                     chi2 = float(g2.calc_chi2())
-                    if not (abs(chi2 - chi0) <= 1e-11 * cyc * (1e-300 + abs(chi0))) and not (not np.isfinite(chi2) and not np.isfinite(chi0)):
+                    # (the reader may change the last bits at wrapped / re-normalised positions; with indefinite information and extreme magnitudes
+                    #  chi^2 is a difference of huge terms, so the yardstick is the sum of the ABSOLUTE terms |e_i| |Omega_ij| |e_j|, not |chi^2|)
+                    yard, slack = abs_chi2(g)
+                    half_turn = any(len(np.asarray(e.estimate)) == 7 and type(e).__name__ in ('EdgeOdometry', 'TaggedOdometry') and float(np.linalg.norm(np.asarray(e.calc_error())[3:])) > 1.0 - 1e-9
+                                    for e in g._edges)
+                    if half_turn:
+                        # a rotational error of exactly a half turn (w = 0): q and -q cannot be told apart, its sign is conventional (excluded set of C01 / C02)
+                        run.skip('chi2 comparison skipped: an SE(3) rotational error is exactly a half turn')
+                        chi0 = None
+                        gk = g2
+                        path = os.path.join(tmpdir, 'g%d_%d.g2o' % (n, cyc))
+                        g2.to_g2o(path)
+                        continue
+                    if not (abs(chi2 - chi0) <= cyc * (1e-11 * (1e-300 + yard) + slack)) and not (not np.isfinite(chi2) and not np.isfinite(chi0)) and np.isfinite(yard + slack):
                         run.violation(dict(key, outcome='chi2', cycle=min(cyc, 2)), 'chi2 %r before export, %r after import (cycle %d)' % (chi0, chi2, cyc), dict(abstract=c['g']))
                         break
                 gk = g2
